@@ -32,7 +32,7 @@
    Executable definitions only. *)
 From Coq Require Import List Arith Bool.
 Import ListNotations.
-From ZI Require Import Model.Ro Model.Adapter Model.Lookup Model.RegSys.
+From ZI Require Import Model.Ro Model.Adapter Model.Lookup Model.RegSys Spec.RegChain.
 
 Record cstate := mkCS {
   cs_g : graph;           (* spec i has bases (bases cs_g i) *)
@@ -121,45 +121,20 @@ Definition erase_lookups (h : list cop) : list cop := filter cis_mutation h.
 (* every registry forgets what it cached (and what it subscribed to) *)
 Definition drop_caches (s : sys) : sys := map (fun x => set_caches x empty_caches) s.
 
-(* ---- well-formed operations (what the real code supports without raising / looping):
-   registries are named after their creation, bases come earlier in creation order (so the
-   registry graph is acyclic), no base is listed twice, and an invalidating (Push) registry has
-   only invalidating bases ("An invalidating registry can only have invalidating registries as
-   bases", adapter.py; a verifying base has no _addSubregistry). *)
-Definition bases_ok (s : sys) (fl : flavour) (bound : nat) (bs : list nat) : bool :=
-  nodup_b bs &&
-  forallb (fun b => Nat.ltb b bound &&
-                    match fl with
-                    | Push => match rs_flavour (get s b) with Push => true | Verifying => false end
-                    | Verifying => true
-                    end) bs.
+(* ---- well-formed histories: those of Spec/RegChain.v (one flavour [fl]; registries are named
+   after their creation; bases come earlier in creation order, so the registry graph is acyclic;
+   no rebuild(), which re-runs __init__ and forgets the sub-registries of a push registry);
+   re-basing a specification is always allowed (keeping the specification graph acyclic is the
+   caller's business: the real code recurses without bound on a cycle, the model just runs out of
+   fuel, and the theorems do not need it). *)
+Definition cwf_op (fl : flavour) (n : nat) (o : cop) : bool :=
+  match o with CReg o' => wf_op fl n o' | CSetSpecBases _ _ => true end.
 
-Definition reg_of (o : rop) : option nat :=
-  match o with
-  | ONewReg _ _ => None
-  | OSetRegBases r _ | ORegister r _ _ _ _ | OUnregister r _ _ _ _ | OSubscribe r _ _ _
-  | OUnsubscribe r _ _ _ | ORebuild r | QLookup r _ _ _ | QLookup1 r _ _ _ | QLookupAll r _ _
-  | QNames r _ _ | QSubscriptions r _ _ | QRegistered r _ _ _ | QSubscribed r _ _ _
-  | QAllRegistrations r | QAllSubscriptions r | QQueryAdapter r _ _ _ | QAdapterHook r _ _ _
-  | QQueryMultiAdapter r _ _ _ | QSubscribers r _ _ => Some r
+Definition cn_after (n : nat) (o : cop) : nat :=
+  match o with CReg o' => n_after n o' | CSetSpecBases _ _ => n end.
+
+Fixpoint cwf_hist (fl : flavour) (n : nat) (ops : list cop) : bool :=
+  match ops with
+  | [] => true
+  | o :: ops' => cwf_op fl n o && cwf_hist fl (cn_after n o) ops'
   end.
-
-Definition wf_rop (s : sys) (o : rop) : bool :=
-  match reg_of o with Some r => Nat.ltb r (length s) | None => true end &&
-  match o with
-  | ONewReg fl bs => bases_ok s fl (length s) bs
-  | OSetRegBases r bs => bases_ok s (rs_flavour (get s r)) r bs
-  | _ => true
-  end.
-
-Definition wf_cop (st : cstate) (o : cop) : bool :=
-  match o with CReg o' => wf_rop (cs_sys st) o' | CSetSpecBases _ _ => true end.
-
-Section WfRun.
-  Variable call : value -> list nat -> option nat.
-  Fixpoint wf_run (st : cstate) (ops : list cop) : bool :=
-    match ops with
-    | [] => true
-    | o :: ops' => wf_cop st o && wf_run (fst (cstep call st o)) ops'
-    end.
-End WfRun.
